@@ -224,4 +224,4 @@ NOT_APPLICABLE = {
 
 # properties whose checks are complete enough to be registered in MANIFEST.json (maintained by hand:
 # a property is added only after ./check <ID> exits 0 on the unchanged tree inside its time budget)
-CLAIMED = ['C12', 'C04', 'C19', 'C20', 'C08', 'C03', 'C13', 'C09']
+CLAIMED = ['C01', 'C02', 'C03', 'C04', 'C05', 'C06', 'C07', 'C08', 'C09', 'C10', 'C11', 'C12', 'C13', 'C14', 'C15', 'C17', 'C18', 'C19', 'C20']
